@@ -1,5 +1,11 @@
 """C12 - dynamic bitset behaves like a growable reference bit vector."""
 import runner
+import vcommon as vc
+
+# the random histories run without detect_stack_use_after_return (halves their cost; the exhaustive modes, which
+# call every function of the class, keep the complete flavour settings)
+_HIST_ENV = {"ASAN_OPTIONS": vc.FLAVOURS["asan"]["env"]["ASAN_OPTIONS"].replace(
+    "detect_stack_use_after_return=1", "detect_stack_use_after_return=0")}
 
 SPEC = dict(
     prop="C12", level="exploration", default_harness="bitset",
@@ -7,22 +13,26 @@ SPEC = dict(
     rule=("reference model = vector<char> of bits on which the documented effect of every operation is applied; "
           "after every operation the state is read back (size, test) and compared, then test, const [], count, any, "
           "none, all, size, to_string, to_ulong (overflow_error expected when a bit >= 64 is set), == against an equal "
-          "and a one-bit-different bitset of the same size and the six iteration forms (range-for, begin/end, "
+          "and a one-bit-different bitset of the same size and the eight iteration forms (range-for on a non-const and a const bitset, begin/end, const begin/end, "
           "cbegin/cend, rbegin/rend, crbegin/crend) are compared with the model; a op= b is compared with a op b "
           "(& | ^ << >>). Growth by set/reset/flip/[] at pos >= size: new size adopted, required > pos, old bits kept, "
           "new bits zero. exh1: case = (one of the 511 bitsets of size 0..8, one of 21 operation kinds), every "
           "position / shift distance / new size in 0..size+3 and {63,64,65,100}, every construction and assignment "
-          "form, every ++/-- script of length 4 (pre/post) from begin and end for the four iterator types. exh2: "
+          "form, every ++/-- script of length 4 (pre/post) from begin and end for the four iterator types; every step "
+          "once on clean storage and once on storage whose bits behind size() are 1 (moved in from a larger "
+          "vector<bool>), so that reads behind the size inside the last word change the result. exh2: "
           "case = one state against all 511 states for & | ^ in both forms (different sizes: only the metamorphic "
           "relation is judged). hist: case = random history of 100 operations (sizes up to 300, positions and "
-          "distances biased to size-1, size, size+1.., 63/64/65/100), complete observation after every operation. "
+          "distances biased to size-1, size, size+1.., 63/64/65/100), after every operation all value observers plus one forward and one reverse iteration form (all eight forms in every 8th step). "
           "distinct_nontrivial = number of (state, operation, parameter) steps in the exhaustive modes (distinct by "
           "construction) plus the number of distinct histories by hash of the expanded operation list. "
           "Abstentions (counted as abst.*): size after reset(), size after a shift (only: not smaller), & | ^ and == "
           "between different sizes, ++ on an end iterator, -- where no previous element exists."),
     assumptions=["the vector<char> reference model in harness/bitset.cpp (helpers spot-checked at start-up)",
                  "state is read back through size() and test(); a defect in test() would be attributed to the operation",
-                 "g++ 12 ASan/UBSan runtimes with -D_GLIBCXX_ASSERTIONS (out-of-range vector<bool> access aborts)",
+                 "g++ 12 ASan/UBSan runtimes; libstdc++ 12 has no subscript assertion in vector<bool>::operator[], so an access "
+                 "behind size() inside the last storage word is only visible to the model (size must exceed pos, "
+                 "const access must throw); behind the storage it is an ASan report",
                  "unsigned long has 64 bits"],
     modes=[
         dict(name="exh1", flavour="asan", cases=511 * 21, exhaustive=True, eval_stat="steps", timeout=900,
@@ -31,8 +41,8 @@ SPEC = dict(
                             "meta.compound_vs_binary", "walk.inc", "walk.dec", "to_ulong.value"]),
         dict(name="exh2", flavour="asan", cases=511, exhaustive=True, eval_stat="steps", timeout=900,
              require_stats=["pairs.same_size", "pairs.different_size", "meta.compound_vs_binary"]),
-        dict(name="hist", flavour="asan", cases={"quick": 20000, "thorough": 1000000}, eval_stat="steps",
-             args={"ops": 100, "cap": 300}, timeout={"quick": 900, "thorough": 3600},
+        dict(name="hist", flavour="asan", cases={"quick": 20000, "thorough": 600000}, eval_stat="steps",
+             args={"ops": 100, "cap": 300}, timeout={"quick": 900, "thorough": 3600}, env=_HIST_ENV,
              require_stats=["grow.set(pos)", "grow.flip(pos)", "to_ulong.overflow", "to_ulong.value",
                             "meta.compound_vs_binary", "walk.inc", "walk.dec", "iter.positions"]),
     ],
